@@ -251,3 +251,32 @@ def block_of(st: ast.stmt) -> list[ast.stmt] | None:
             if any(x is st for x in h.body):
                 return h.body
     return None
+
+
+def envs_at(g: CFG, node: Node, facts: Facts, limit: int = 64) -> list[dict]:
+    """Distinct fact environments with which *node* can be reached from the entry (normal and exceptional edges)."""
+    from collections import deque
+
+    seen = {(g.entry.id, ())}
+    dq = deque([(g.entry, ())])
+    out: list[dict] = []
+    keys = set()
+    while dq:
+        n, env = dq.popleft()
+        if n is node:
+            if env not in keys:
+                keys.add(env)
+                out.append(dict(env))
+                if len(out) >= limit:
+                    break
+            continue
+        d_after = facts.transfer(n, dict(env))
+        for e in n.succ:
+            d2 = facts.edge_ok(n, e, dict(d_after))
+            if d2 is None:
+                continue
+            k = (e.dst.id, tuple(sorted(d2.items())))
+            if k not in seen:
+                seen.add(k)
+                dq.append((e.dst, k[1]))
+    return out or [{}]
